@@ -115,7 +115,9 @@ func (cc *ChangeCollector) GetChanges() []*NodeChange {
 	changes := make([]*NodeChange, len(cc.Changes))
 	idx := 0
 	for _, v := range cc.Changes {
-		changes[idx] = v
+		// hand out a copy of the record: AddChange updates the collector's own records in place
+		c := *v
+		changes[idx] = &c
 		idx++
 	}
 	return changes
